@@ -666,7 +666,16 @@ fn ea_in(rng: &mut Rng, reg: EaRegion, n: u32) -> u32 {
         EaRegion::Io2Plain => {
             // 0xffff20-0xffff7f, 0xffffa0-0xffffcf, 0xffffdb-0xffffe9 minus room for n bytes
             loop {
-                let a = 0xffff20 + rng.below(0xca) as u32;
+                let mut a = 0xffff20 + rng.below(0xca) as u32;
+                // a register address named in the emulator's source (or its neighbours)
+                if rng.chance(1, 6) {
+                    if let Some(v) = crate::util::dict_value(rng) {
+                        let v = 0xffff00 | (v & 0xff);
+                        if (0xffff20..=0xffffe9).contains(&v) {
+                            a = v;
+                        }
+                    }
+                }
                 let a = if n > 1 { a & !1 } else { a };
                 let ok = (0..n).all(|k| {
                     let x = a + k;
